@@ -161,6 +161,7 @@ type env struct {
 	lateAck   atomic.Bool // ScStateAfterLateAck: withhold the chunk ack, send it late
 	noAck     atomic.Bool // ScUpCloseSlowList: the broker never acknowledges chunks
 	deadDial  atomic.Bool // outage scenarios: every further dial fails
+	noClose   atomic.Bool // ScCloseSilent: the broker never answers a stream close request (pings are answered)
 }
 
 // act applies the case's behaviour to the exchange: normal = the cooperative answer, mis = the
@@ -239,6 +240,9 @@ func (e *env) handler(s *broker.Session, m message.Message) {
 			ack(v.StreamIDAlias)()
 		}
 	case *message.UpstreamCloseRequest:
+		if e.noClose.Load() {
+			return
+		}
 		normal := func() {
 			s.Send(&message.UpstreamCloseResponse{RequestID: v.RequestID, ResultCode: message.ResultCodeSucceeded})
 		}
@@ -250,6 +254,9 @@ func (e *env) handler(s *broker.Session, m message.Message) {
 			normal()
 		}
 	case *message.DownstreamCloseRequest:
+		if e.noClose.Load() {
+			return
+		}
 		normal := func() {
 			s.Send(&message.DownstreamCloseResponse{RequestID: v.RequestID, ResultCode: message.ResultCodeSucceeded})
 		}
@@ -583,6 +590,51 @@ func runCase(c *caseIn) (o obs, direct string) {
 			return up.Flush(ctx)
 		}
 		follow = func(ctx context.Context) error { return up.Close(ctx) }
+	case "ScCloseSilent":
+		// stream Close against a broker that answers pings but neither acknowledges chunks nor
+		// answers the close request.  pos 0: downstream, pos 1: downstream with a read result pending
+		// and a transport whose writes take longer than the deadline (the deadline expires during
+		// the final ack flush); pos 2/3: upstream reliable / unreliable; pos 4/5: the same with an
+		// unacknowledged chunk (the deadline expires during the ack wait).  CtxMs = 0: the
+		// caller's context is already done at entry.
+		e.noClose.Store(true)
+		switch c.Pos {
+		case 0, 1:
+			if d := openDown(); d != "" {
+				return o, d
+			}
+			if c.Pos == 1 {
+				alias := e.downAlias.Load()
+				s := sess()
+				s.Send(chunk(alias))
+				cl, _, es := guarded(setupWd, func() error {
+					ctx, cancel := bg(time.Second)
+					defer cancel()
+					_, err := down.ReadDataPoints(ctx)
+					return err
+				})
+				if cl != "ONil" {
+					return o, "harness: read before close: " + cl + " " + es
+				}
+				s.Link.WriteDelay.Store(int64(ms(c.DelayMs)))
+			}
+			call = func(ctx context.Context) error { return down.Close(ctx) }
+		default:
+			qos := message.QoSReliable
+			if c.Pos%2 == 1 {
+				qos = message.QoSUnreliable
+			}
+			if d := openUp(iscp.WithUpstreamQoS(qos)); d != "" {
+				return o, d
+			}
+			if c.Pos >= 4 {
+				e.noAck.Store(true)
+				if d := writeFlush(); d != "" {
+					return o, d
+				}
+			}
+			call = func(ctx context.Context) error { return up.Close(ctx) }
+		}
 	case "ScReadManyGroups":
 		// one chunk with c.Pos groups addressed by data id ALIAS; the ack flush ticks every
 		// millisecond and a goroutine polls State(): writers of the stream mutex keep arriving
@@ -686,6 +738,7 @@ func runCase(c *caseIn) (o obs, direct string) {
 		return call(ctx)
 	})
 	close(done)
+	e.fired.Store(true) // the behaviour applies to the exchanges of the call under test only, not to the follow-up
 	o.Class, o.Ms, o.Err = cls, dur.Milliseconds(), es
 	if cls == "OPanic" {
 		direct = "panic in the call under test: " + es
@@ -836,6 +889,19 @@ func main() {
 				j.PingInt, j.PingTo = 2000, 2000
 				jobs = append(jobs, j)
 			}
+			// stream Close against a silent broker (pings answered): context already done at entry, or expiring
+			// during the final ack flush / ack wait; reliable and unreliable
+			for _, pc := range [][2]int{{0, 0}, {0, 150}, {1, 100}, {2, 0}, {3, 0}, {2, 150}, {4, 0}, {5, 0}, {4, 150}, {5, 150}} {
+				j := mk("ScCloseSilent", "BDrop", pc[0], pc[1], 5000)
+				if pc[0] == 1 {
+					j.PingInt, j.PingTo, j.DelayMs = 2000, 2000, 150 // the slow transport must not trip the keepalive
+				}
+				jobs = append(jobs, j)
+			}
+			// Conn-level requests whose context is already done at entry
+			for _, sc := range []string{"ScOpenUp", "ScOpenDown", "ScMetadata", "ScCall", "ScCallWait"} {
+				jobs = append(jobs, mk(sc, "BDrop", 0, 0, 5000))
+			}
 			// ReadDataPoints of a chunk with many alias groups under ack-flush ticks and State() polling
 			for _, k := range []int{2000, 8000} {
 				jobs = append(jobs, mk("ScReadManyGroups", "BAnswer", k, 300, 5000))
@@ -904,7 +970,7 @@ func main() {
 		w.Count("beh:" + jobs[i].Beh)
 		w.Count("class:" + cs.Observed.(obs).Class)
 	}
-	rule := "every API scenario (open up/down, write, flush, read, read-metadata, metadata, call, call-and-wait, stream close up/down, conn close) x exchange position x broker behaviour {answer, delay 60 ms, drop, misaddress (reply for another request id / stream alias / call id / unsubscribed source node), disconnect (loud; thorough also silent)} with a context deadline of 100-300 ms, ping 20/40 ms, close timeout 5 s and 120 ms; plus 1/3/8 Flush calls with a cancelled context followed by Write+Flush and Close, ReadDataPoints of a chunk with 2000/8000 alias-addressed groups under a 1 ms ack flush and a State() poller, an inbound flood of 200/1100/3300 uncollected calls, reply calls, chunks and metadata followed by a request, Conn.Close and Upstream.Close during an outage with failing redials (loud / silent), Upstream.Close whose deadlines expire while the sent storage's List is in progress (slow storage), request-after-close (former F5), State() after a late ack (former F13), Conn.Close while another request is in flight (F31). non-trivial = behaviour other than answer; distinct = distinct Coq case terms (durations included)"
+	rule := "every API scenario (open up/down, write, flush, read, read-metadata, metadata, call, call-and-wait, stream close up/down, conn close) x exchange position x broker behaviour {answer, delay 60 ms, drop, misaddress (reply for another request id / stream alias / call id / unsubscribed source node), disconnect (loud; thorough also silent)} with a context deadline of 100-300 ms, ping 20/40 ms, close timeout 5 s and 120 ms; plus 1/3/8 Flush calls with a cancelled context followed by Write+Flush and Close, stream Close (down / up reliable / up unreliable) against a broker that answers pings but neither acks nor answers the close request, with a context already done at entry or expiring during the final ack flush / ack wait, Conn-level requests with a context already done at entry, ReadDataPoints of a chunk with 2000/8000 alias-addressed groups under a 1 ms ack flush and a State() poller, an inbound flood of 200/1100/3300 uncollected calls, reply calls, chunks and metadata followed by a request, Conn.Close and Upstream.Close during an outage with failing redials (loud / silent), Upstream.Close whose deadlines expire while the sent storage's List is in progress (slow storage), request-after-close (former F5), State() after a late ack (former F13), Conn.Close while another request is in flight (F31). non-trivial = behaviour other than answer; distinct = distinct Coq case terms (durations included)"
 	if err := w.Flush(*seed, *tier, rule, true, nil); err != nil {
 		fmt.Fprintln(os.Stderr, err)
 		os.Exit(2)
